@@ -7,8 +7,9 @@ open Vio
        it finds in the format of the harness (which printed what the real
        reader found in the same file);
    (2) runs the extracted writer model [enc_events] on the calls of the case
-       (timestamps: those found in the file; offsets: those of the chain found
-       in the file, the allocation being outside the model) and compares every
+       (timestamps: the 8 bytes the real writer stored where the model places the
+       record; offsets: those of the chain found in the file, the allocation
+       being outside the model) and compares every
        events buffer with the bytes of the file: "enc=ok" or "enc=DIFF..".
    The file header is parsed here (it is outside the model). *)
 
@@ -69,6 +70,12 @@ let () =
     match (try Some (parse_case line) with _ -> None) with
     | None -> "<bad case>"
     | Some (_pages, _mode, _ns, keys, _ninfos, events) ->
+    let infos_of sid =
+      let ni = (try List.nth _ninfos sid with _ -> 0) in
+      if ni > 15 then [(bytes_of_string "big", bytes_of_string (String.make ni 'v'))]
+      else List.rev (List.init ni (fun m ->
+          (bytes_of_string (gstr 'i' (sid * 16 + m) (4 + (sid + m) mod 9)),
+           bytes_of_string (gstr 'v' (sid * 16 + m) (3 + (sid * 5 + m * 11) mod 40))))) in
     match read_file path with
     | None -> "<no profile file>"
     | Some s ->
@@ -121,13 +128,8 @@ let () =
              let sid = (try Scanf.sscanf hr "s%d%!" (fun i -> i) with _ -> -1) in
              Hashtbl.replace seen sid ();
              let mine = List.filter (fun e -> e.sid = sid) events in
-             if List.length mine <> List.length devs then note (Printf.sprintf "DIFF:%s:count" hr) else begin
-               let evs = List.map2 (fun c d ->
-                   log_event { c_key = n_of_int c.key; c_id = n_of_string c.id; c_tp = n_of_string c.tp;
-                               c_info = (match c.info with
-                                   | None -> None
-                                   | Some seed -> Some (List.init (ilen_case c.key) (fun m -> n_of_int (ibyte seed m))));
-                               c_flags = n_of_int c.ufl } d.e_ts) mine devs in
+             ignore devs;
+             begin
                (* offsets of the chain as found in the file *)
                let rec chain off k acc =
                  if k = 0 || N.eqb off (n_of_string "18446744073709551615") then List.rev acc
@@ -135,6 +137,25 @@ let () =
                let offs = Array.of_list (chain t.t_first nbuf []) in
                let alloc j = let j = int_of_nat j in
                  if j < Array.length offs then offs.(j) else n_of_string "18446744073709551614" in
+               let mk c ts =
+                 log_event { c_key = n_of_int c.key; c_id = n_of_string c.id; c_tp = n_of_string c.tp;
+                             c_info = (match c.info with
+                                 | None -> None
+                                 | Some seed -> Some (List.init (ilen_case c.key) (fun m -> n_of_int (ibyte seed m))));
+                             c_flags = n_of_int c.ufl } ts in
+               (* the timestamp of a call is whatever the real writer stored where the modelled writer
+                  places the record (buffer index and position come from the model's own state machine) *)
+               let st = ref w_init in
+               let evs = List.map (fun c ->
+                   let e0 = mk c N0 in
+                   let s' = w_put (ev_len il_case) ser_event true avail (n_of_int 1) alloc !st e0 in
+                   st := s';
+                   let bi = int_of_nat s'.w_idx and pos = int_of_n_sat s'.w_pos - int_of_n_sat (ev_len il_case e0) in
+                   let ts = if bi < Array.length offs then
+                       (let o = int_of_n_sat offs.(bi) + 25 + pos + 16 in
+                        if o >= 0 && o + 8 <= flen then unle (List.init 8 (fun i -> n_of_int (Char.code s.[o + i]))) else N0)
+                     else N0 in
+                   mk c ts) mine in
                let out = enc_events il_case avail alloc evs in
                if List.length out <> Array.length offs then note (Printf.sprintf "DIFF:%s:nbuf=%d/%d" hr (List.length out) (Array.length offs))
                else List.iteri (fun j (off, bytes) ->
@@ -147,8 +168,46 @@ let () =
                      note (Printf.sprintf "DIFF:%s:buf%d@byte%d" hr j (first 0 real bytes))
                    | None -> note (Printf.sprintf "DIFF:%s:buf%d:unreadable" hr j)) out
              end) ths;
+         (* --- dictionary and thread table: the modelled table writer against the bytes of the file --- *)
+         let chain_offsets first =
+           let rec go off k acc =
+             if k = 0 || N.eqb off (n_of_string "18446744073709551615") then List.rev acc
+             else match file off with None -> List.rev acc | Some buf -> go (b_next buf) (k - 1) (off :: acc) in
+           Array.of_list (go first nbuf []) in
+         let compare_table what first btype entries =
+           let offs = chain_offsets first in
+           let alloc j = let j = int_of_nat j in
+             if j < Array.length offs then offs.(j) else n_of_string "18446744073709551614" in
+           let out = enc_table avail (n_of_int btype) alloc entries in
+           if List.length out <> Array.length offs then
+             note (Printf.sprintf "DIFF:%s:nbuf=%d/%d" what (List.length out) (Array.length offs))
+           else List.iteri (fun j (off, bytes) ->
+               match file off with
+               | Some real when real = bytes -> ()
+               | _ -> note (Printf.sprintf "DIFF:%s:buf%d" what j)) out in
+         let kent_of n a c il = { k_name = bytes_of_string n; k_attr = bytes_of_string a; k_conv = bytes_of_string c; k_ilen = n_of_int il } in
+         let dict_case = kent_of "N/A" "fill:#000000" "" 0
+                         :: List.mapi (fun j (nl, al, cl, il) -> kent_of (gstr 'k' j nl) (gstr 'a' j al) (gstr 'c' j cl) il) keys in
+         compare_table "dict" (n_of_int doff) 2 (List.map ser_key dict_case);
+         begin
+           (* threads in stream_init order, those without events left out; infos are kept in a LIFO list *)
+           let sids = List.sort_uniq compare (List.map (fun e -> e.sid) events) in
+           let firsts = List.map (fun (t, _) -> (str_of_bytes t.t_hr, t.t_first)) ths in
+           let entries = List.filter_map (fun sid ->
+               match List.assoc_opt (Printf.sprintf "s%d" sid) firsts with
+               | None -> None
+               | Some first ->
+                 let infos = kept_infos avail (infos_of sid) in   (* dump_thread omits what does not fit *)
+                 Some (ser_thread { t_hr = bytes_of_string (Printf.sprintf "s%d" sid);
+                                    t_nbev = n_of_int (List.length (List.filter (fun e -> e.sid = sid) events));
+                                    t_first = first; t_infos = infos })) sids in
+           compare_table "threads" (n_of_int toff) 3 entries
+         end;
          (* streams with events that the file does not have *)
          List.iter (fun e -> if not (Hashtbl.mem seen e.sid) then note (Printf.sprintf "DIFF:s%d:missing" e.sid)) events;
-         Buffer.add_string b (Printf.sprintf " | mono=%d rc=0 enc=%s" (if !mono then 1 else 0)
+         (* thread_size() warns about an omitted info: the dump then returns PARSEC_ERROR (-1), the file is complete *)
+         let rc = if List.exists (fun sid -> List.exists (fun e -> e.sid = sid) events && omits avail (infos_of sid))
+                       (List.init _ns (fun i -> i)) then -1 else 0 in
+         Buffer.add_string b (Printf.sprintf " | mono=%d rc=%d enc=%s" (if !mono then 1 else 0) rc
                                 (if !diff = "" then "ok" else !diff));
          Buffer.contents b))
